@@ -18,6 +18,7 @@ fn key_of(cj: &Value) -> String { cj.to_string() }
 pub fn ring_plain<T: Elem + Clone + PartialEq + std::fmt::Debug>(cx: &mut Ctx, cell: &str, tag: &str, cap0: u64, big: bool, ops: &[Vec<u64>]) {
     let mut cj = json!({"cell": tag, "cap": cap0, "ops": ops});
     if big { cj["big"] = json!(true); }
+    if journal(&cj) { return; }
     cx.sum.eval(cell, &key_of(&cj), ops.len() >= 3);
     cx.sum.cell_status(cell, "S-only");
     let lim: u64 = if big { 1 << 21 } else { 40 };
@@ -86,6 +87,7 @@ pub fn ring_plain<T: Elem + Clone + PartialEq + std::fmt::Debug>(cx: &mut Ctx, c
 
 pub fn fixed_plain<T: Elem + std::fmt::Debug, const N: usize>(cx: &mut Ctx, cell: &str, tag: &str, ops: &[Vec<u64>]) {
     let cj = json!({"cell": tag, "cap": N, "ops": ops});
+    if journal(&cj) { return; }
     cx.sum.eval(cell, &key_of(&cj), ops.len() >= 3);
     cx.sum.cell_status(cell, "S-only");
     let r = guarded(|| -> Option<String> {
@@ -140,6 +142,7 @@ fn queue_cell(cx: &mut Ctx, tag: &str, cap: u64, big: bool, ops: &[Vec<u64>]) ->
 pub fn bump_shared(cx: &mut Ctx, caps: &[u64], ops: &[Vec<u64>]) {
     let cell = "BumpVec / shared allocator";
     let cj = json!({"cell": "bump_shared", "caps": caps, "ops": ops});
+    if journal(&cj) { return; }
     cx.sum.eval(cell, &key_of(&cj), ops.len() >= 3);
     cx.sum.cell_status(cell, "S-only");
     reset_counters();
@@ -196,6 +199,7 @@ pub fn bump_shared(cx: &mut Ctx, caps: &[u64], ops: &[Vec<u64>]) {
 pub fn mm_readonly(cx: &mut Ctx, n: u64, seed: u64) {
     let cell = "MmapVec<u64>/read_only";
     let cj = json!({"cell": "mm_readonly", "n": n, "seed": seed});
+    if journal(&cj) { return; }
     cx.sum.eval(cell, &key_of(&cj), true);
     cx.sum.cell_status(cell, "S-only");
     let r = guarded(|| -> Option<String> {
@@ -305,6 +309,7 @@ pub fn probe(cx: &mut Ctx, args: &Args, mode: u64) {
     let k = (mode.saturating_sub(3) as usize).min(3);
     let cell = PROBE_CELL[k];
     let cj = json!({"cell": "probe", "mode": mode});
+    if journal(&cj) { return; }
     cx.sum.eval(cell, &key_of(&cj), true);
     cx.sum.cell_status(cell, "S-only");
     let dir = format!("{}/probe_{}", args.out, mode);
@@ -313,6 +318,7 @@ pub fn probe(cx: &mut Ctx, args: &Args, mode: u64) {
     std::fs::write(&f, json!({"case": {"cell": "fastvec_probe_child", "mode": mode}}).to_string()).ok();
     let st = std::process::Command::new(std::env::current_exe().expect("current_exe"))
         .args(["C10", "--seed", "0", "--tier", "quick", "--out", &dir, "--replay", &f])
+        .env("ZV_C10_CHILD", "1").env_remove("ZV_C10_JOURNAL").env_remove("ZV_C10_SKIP")
         .stdout(std::process::Stdio::null()).stderr(std::process::Stdio::null()).status();
     let detail = std::fs::read_to_string(format!("{}/probe_detail.txt", dir)).unwrap_or_default();
     std::fs::remove_dir_all(&dir).ok();
